@@ -58,7 +58,7 @@ void observe(World &w, int ri, const char *wf_owner, bool force_full) {
   if (getenv("HWSIM_DUMP")) fprintf(stderr, "---- r%d after %s #%d\n%s", ri, w.run->curop.c_str(), w.run->curopidx, R.last_text.c_str());
   if (wf_owner && *wf_owner) {
     std::string e = wf_check(R.t, R.last);
-    if (!e.empty()) { std::string clause = e.substr(0, e.find(": ")); viol(w, wf_owner, clause, "%s", e.c_str()); }
+    if (!e.empty()) { std::string clause = e.substr(0, e.find(": ")); for (auto &h : w.hint) if (clause.rfind(h.first, 0) == 0) { clause += "." + h.second; break; } viol(w, wf_owner, clause, "%s", e.c_str()); }
   }
   w.run->distinct("state", mix2(hash_str(R.last_text), hash_str(w.run->curop)));
 }
@@ -107,7 +107,7 @@ static void diff_line(const std::string &a, const std::string &b, std::string &l
 
 // one op on one replica, followed by the generic per-op oracles
 static void exec_on(World &w, const Op &o, int ri) {
-  Run &r = *w.run;
+  Run &r = *w.run; w.hint.clear();
   Dump B = w.r[ri].last;
   bool handled = ops_core(w, o) || ops_aux(w, o) || ops_diff(w, o);
   if (!handled) { r.ev("unknown op %s", o.kind.c_str()); return; }
@@ -267,7 +267,7 @@ struct TopoMachine : Machine {
       int tj = w.r[ri].twin;
       if (tj >= 0 && w.r[tj].live() && w.r[tj].twin == ri) {
         Replica &A = w.r[ri], &T = w.r[tj]; int kind = A.twin_kind; const char *own = kind == 1 ? "C12" : kind == 2 ? "C05" : "C19";
-        if (o.u("both") && kind != 3) {
+        if (o.u("both") && kind != 3 && !A.adopted && !T.adopted) {   // an adopted replica refuses what its (writable) twin accepts
           // lock-step: the same op on the twin must keep the two replicas equivalent (catches lost hidden state such as next_gp_index or dont_merge)
           Op o2 = o; int kth = 0; for (int i = 0; i < tj; i++) kth += w.r[i].live(); for (auto &kv : o2.kv) if (kv.first == "r") kv.second = std::to_string(kth);
           exec_on(w, o2, tj);
